@@ -74,10 +74,10 @@ ASSUMPTIONS = [
     "'suppressed nothing' is decided on what was observed: no diagnostic of D(P) is missing from D(P + comment)",
     "diagnostics produced after check() returns (ClassAttributeChecker) are not observable through harness.run except on the CLI route",
 ]
-FLOORS = {   # ~50 % of what the unchanged tree yields (quick: 288 programs, thorough: 1600)
-    "quick": {"distinct_nontrivial": 19500, "programs": 150, "disable_cases": 13500, "disable_cases_nontrivial": 13000,
-              "comment_cases": 19500, "comment_cases_target_has_diag": 3600, "comment_suppressed_something": 4100,
-              "eof_own_line_cases": 450, "file_level_bare_cases": 170, "fresh_checker_configs": 580, "cli_runs": 24},
+FLOORS = {   # ~50 % of what the unchanged tree yields (quick: 160 programs, thorough: 1600)
+    "quick": {"distinct_nontrivial": 10400, "programs": 80, "disable_cases": 7300, "disable_cases_nontrivial": 6900,
+              "comment_cases": 10300, "comment_cases_target_has_diag": 1900, "comment_suppressed_something": 2150,
+              "eof_own_line_cases": 240, "file_level_bare_cases": 90, "fresh_checker_configs": 400, "cli_runs": 16},
     "thorough": {"distinct_nontrivial": 105000, "programs": 800, "disable_cases": 75000, "disable_cases_nontrivial": 72000,
                  "comment_cases": 105000, "comment_cases_target_has_diag": 19000, "comment_suppressed_something": 21500,
                  "eof_own_line_cases": 2400, "file_level_bare_cases": 880, "fresh_checker_configs": 4800, "cli_runs": 72},
@@ -597,7 +597,7 @@ def report(ctx, key, what, witness, seen_keys, budget):
 
 
 def shard(ctx) -> None:
-    nprog = ctx.pick(288, 1600)
+    nprog = ctx.pick(160, 1600)
     prog_rng = random.Random(f"C11-programs/{ctx.seed}")   # the same program list in every shard
     shared = _Shared()
     seen_keys: set = set()
@@ -729,12 +729,15 @@ def shard(ctx) -> None:
                 ctx.count("cli_runs")
                 ctx.histo("baseline_vs_settings", "cli:" + ("equal" if base_cli == base else "differs"))
                 S = rng.choice([S for S in subsets if 0 < len(S) < len(codes)] or subsets)
-                got = cli_diags(source, [a for c in S for a in ("-d", c)])
-                ctx.count("cli_runs")
-                judge("cli", S, got, base_cli)
-                got = cli_diags(source, ["--disable-all"] + [a for c in codes if c not in S for a in ("-e", c)])
-                ctx.count("cli_runs")
-                judge("cli-disable-all", S, got, base_cli)
+                # quick: one of the two forms per shard (alternating), thorough: both
+                if not ctx.quick or ctx.shard % 2 == 0:
+                    got = cli_diags(source, [a for c in S for a in ("-d", c)])
+                    ctx.count("cli_runs")
+                    judge("cli", S, got, base_cli)
+                if not ctx.quick or ctx.shard % 2 == 1:
+                    got = cli_diags(source, ["--disable-all"] + [a for c in codes if c not in S for a in ("-e", c)])
+                    ctx.count("cli_runs")
+                    judge("cli-disable-all", S, got, base_cli)
         except Undecided as e:
             ctx.count("undecided")
             ctx.note(f"program {idx} (disable part): {e}")
